@@ -678,6 +678,7 @@ func (h *harness) collect(rr *realRun) (out []*metricOut, err error) {
 		}
 		return out[i].String(false) < out[j].String(false)
 	})
+	vScribble(&rr.rm) // the consumer's copy: nothing the SDK keeps may depend on it
 	return out, nil
 }
 
